@@ -3,7 +3,7 @@ _sha1 = ["src/lib/hash/bundled/sha1/sha1.c"]
 _inc = ["-I", "/repo/src/lib/hash/bundled/sha2", "-I", "/repo/src/lib/hash/bundled/sha1", "-DV_NO_PRIVATE"]
 def T1(name, srcs, what, fns, **kw):
     return dict(file="C18.c", name=name, function=name, repo_srcs=srcs, models=[], defines=_inc + ["-DH_" + name], unwind=130,
-                solver="default", what=what, bounds="one block, symbolic chaining value and block (all 2^768 / 2^1536 inputs)", functions=fns, timeout=900, **kw)
+                solver="default", tiers=("thorough",), what=what, bounds="one block, symbolic chaining value and block (all 2^768 / 2^1536 inputs)", functions=fns, timeout=3300, mem_gb=16, **kw)
 def T2(fn, srcs, rb, L, prior, what, fns, tiers=("quick", "thorough"), suffix="", **kw):
     lmax = max(L, 1)
     return dict(file="C18.c", name="%s-L%d%s" % (fn, L, suffix), function=fn, repo_srcs=srcs, remove_bodies=rb, models=[],
@@ -32,11 +32,13 @@ SPEC = {
                 "(longer prefixes are covered through the symbolic number of previously absorbed blocks)",
                 "src/lib/hash/openssl/openssl.c glue (type -> EVP_* mapping) is read, not encoded"],
     "assumptions": ["SHA-512/128 is the first 16 bytes of SHA-512: hash_setup's digest_size (C13/C07 harnesses) - the back end computes full SHA-512"],
-    "level_note": "T1 decided by cvc5 (bit-vector SMT), T2 by SAT; real sha2.c/sha1.c compiled by goto-cc; little-endian x86-64 configuration",
+    "level_note": "quick tier: T2 (padding/block protocol, SAT) and the constant tables; T1 (compression-function equivalence, 900 s was not enough on any back end in this sandbox) runs in the thorough tier only and may end inconclusive; real sha2.c/sha1.c compiled by goto-cc; little-endian x86-64 configuration",
     "harnesses": [
         T1("h18a", _sha2, "sha256_transf == FIPS 180-4 SHA-256 compression", ["sha256_transf"]),
         T1("h18b", _sha2, "sha512_transf == FIPS 180-4 SHA-512 compression", ["sha512_transf"]),
         T1("h18c", _sha1, "SHA1_Transform == FIPS 180-4 SHA-1 compression", ["SHA1_Transform"]),
+        dict(file="C18.c", name="h18k", function="h18k", repo_srcs=_sha2, models=[], defines=_inc + ["-DH_h18k"], unwind=82, what="round constants and initial values of sha2.c equal independently computed FIPS values",
+             bounds="all 64+80+16 table entries", functions=["sha256_k", "sha512_k", "sha256_h0", "sha512_h0"]),
     ] + _p + [
     ],
 }
